@@ -80,7 +80,7 @@ func init() {
 		}})
 
 	register(&Rule{ID: "C15.R2", Props: []string{"C15", "C18"}, Engine: "E5b",
-		Title:   "roll-back mirrors consumption (2² table over interleaving × unordered): the sequence counter a failed write gives back is exactly the one packetize consumed, and the buffered amount is given back too",
+		Title:   "roll-back mirrors consumption (2³ table over interleaving × stream unordered × DCEP/other payload type): the sequence counter a failed write gives back is exactly the one packetize consumed, and the buffered amount is given back too",
 		MinInst: 4,
 		Run: func(c *RuleCtx) {
 			pk := c.Fn("Stream.packetize")
@@ -101,13 +101,24 @@ func init() {
 				sort.Strings(n)
 				return strings.Join(n, ",")
 			}
-			for m := 0; m < 4; m++ {
-				inter, unord := m&1 != 0, m&2 != 0
+			dcepK := c.P.Const("PayloadTypeWebRTCDCEP")
+			if dcepK == nil {
+				c.Unresolved("const PayloadTypeWebRTCDCEP")
+				return
+			}
+			for m := 0; m < 8; m++ {
+				inter, unord, dcep := m&1 != 0, m&2 != 0, m&4 != 0
 				key := fmt.Sprintf("rollback:interleaving=%v,unordered=%v", inter, unord)
+				ppiV := constant.MakeInt64(51)
+				if dcep {
+					// a DCEP message is forced ordered whatever the stream is configured to
+					key += ",ppi=DCEP"
+					ppiV = dcepK.Val()
+				}
 				// consumption
 				// the fragment loop is unrolled 0, 1 and 2 times per path (PEval's loop bound); a message
 				// always has at least one fragment, and every path must consume the same counters
-				outsP, und := c.P.PEval(pk, PEConfig{Params: map[int]constant.Value{2: constant.MakeInt64(51)},
+				outsP, und := c.P.PEval(pk, PEConfig{Params: map[int]constant.Value{2: ppiV},
 					Fields: map[*types.Var]constant.Value{uI: b(inter), su: b(unord)}, LoopBound: 1,
 					Opaque: map[*ssa.Function]bool{c.Fn("min32"): true}})
 				if und != "" || len(outsP) == 0 {
@@ -133,6 +144,20 @@ func init() {
 					c.Fail(key, c.P.Pos(pk.Pos()), "packetize does not charge bufferedAmount")
 					continue
 				}
+				// the effective per-message flag packetize reports (and WriteSCTP rolls back by)
+				effUnord := unord
+				effKnown := true
+				for _, o := range outsP {
+					if len(o.Ret) < 2 || o.Ret[1] == nil || o.Ret[1].Kind() != constant.Bool {
+						effKnown = false
+					} else {
+						effUnord = constant.BoolVal(o.Ret[1])
+					}
+				}
+				if !effKnown {
+					c.Fail(key, c.P.Pos(pk.Pos()), "UNDECIDED: the unordered flag packetize returns does not fold to a constant")
+					continue
+				}
 				// roll-back
 				outsW, und2 := c.P.PEval(ws, PEConfig{Fields: map[*types.Var]constant.Value{uI: b(inter)},
 					Opaque: map[*ssa.Function]bool{pk: true, spd: true, c.Fn("Association.isBlockWrite"): true, c.Fn("Stream.State"): true, c.Fn("Association.MaxMessageSize"): true},
@@ -140,7 +165,7 @@ func init() {
 						switch x := v.(type) {
 						case *ssa.Extract:
 							if IsCallOf(pk)(x.Tuple) && x.Index == 1 {
-								return b(unord), true
+								return b(effUnord), true
 							}
 						case *ssa.Call:
 							switch x.Call.StaticCallee() {
